@@ -409,6 +409,31 @@ def run_check(prop, mod, argv):
             ctx.driver.close()
 
 
+def _guarded(ctx, phase, fn, *args):
+    """An exception escaping from the library under test while the harness drives it inside the property's domain is a
+    failure of the property (reported with the traceback as replay); an exception raised by harness code is an
+    infrastructure error."""
+    try:
+        return fn(*args)
+    except (ModelError, InfraError, subprocess.TimeoutExpired, KeyboardInterrupt):
+        raise
+    except Exception as e:  # noqa: BLE001
+        tb = traceback.extract_tb(e.__traceback__)
+        src = os.path.realpath(os.path.join(REPO, "src"))
+        last = tb[-1]
+        in_repo = any(os.path.realpath(f.filename).startswith(src) for f in tb)
+        text = "".join(traceback.format_exception(type(e), e, e.__traceback__))[-3000:]
+        if in_repo:
+            where = next((f for f in reversed(tb) if os.path.realpath(f.filename).startswith(src)), last)
+            ctx.violation(
+                f"unexpected-exception:{type(e).__name__}:{os.path.basename(where.filename)}:{where.name}",
+                f"{phase}: the library raised {type(e).__name__}: {str(e)[:160]} in {os.path.basename(where.filename)}:{where.name} on an input of the property's domain",
+                {"traceback": text, "phase": phase},
+            )
+            return None
+        raise InfraError(f"harness exception in {phase}:\n{text}")
+
+
 def _run(ctx, mod):
     prop = ctx.prop
     broken = []  # obligations / correspondences that no longer check
@@ -455,17 +480,17 @@ def _run(ctx, mod):
             broken.append({"kind": "leanchecker", "detail": (pr.stdout + pr.stderr)[-1500:]})
     # 2. correspondence
     try:
-        mod.correspondence(ctx)
+        _guarded(ctx, "correspondence", mod.correspondence, ctx)
     except ModelError as e:
         broken.append({"kind": "model-error", "detail": str(e)})
     for d in ctx.disagreements:
         broken.append({"kind": "correspondence", **d})
     # 3. oracle on the real code
-    mod.oracle(ctx, 1)
+    _guarded(ctx, "oracle", mod.oracle, ctx, 1)
     if broken and not ctx.violations:
         ctx.notes.append("proof/correspondence broken: oracle re-run with 4x budget")
         ctx.rng = random.Random(ctx.seed * 7919 + 17)
-        mod.oracle(ctx, 4)
+        _guarded(ctx, "oracle", mod.oracle, ctx, 4)
     # 4. verdict
     known = [k for k in load_known() if k.get("property") == prop and k.get("status", "open") == "open"]
     known_sigs = {k["sig"]: k for k in known}
@@ -544,8 +569,10 @@ def _run(ctx, mod):
         "wall_s": round(wall, 2),
         "violations": len(new) + (1 if (broken and not new) else 0),
     }
-    os.makedirs(os.path.join(VERIF, "evidence"), exist_ok=True)
-    json.dump(ev, open(os.path.join(VERIF, "evidence", f"{prop}.json"), "w"), indent=1)
+    # evidence of runs against a scratch tree (seeded-change evaluation) must not overwrite the evidence for /repo
+    evdir = os.environ.get("VERIF_EVIDENCE_DIR") or (os.path.join(VERIF, "evidence") if os.path.realpath(REPO) == "/repo" else "/tmp/verif_evidence_scratch")
+    os.makedirs(evdir, exist_ok=True)
+    json.dump(ev, open(os.path.join(evdir, f"{prop}.json"), "w"), indent=1)
     print(
         f"{prop} {ctx.tier} seed={ctx.seed}: theorems {discharged}/{len(theorems)}, correspondence {ctx.corr_cases} cases "
         f"({len(ctx.disagreements)} disagreements), oracle {ctx.oracle_cases} cases ({len(ctx.violations)} violations, "
